@@ -185,7 +185,9 @@ def cls_py(k):
         body.append(f"def _prepare_{NAMES[a]}(self, v): return {fn_py(f, 'v')}")
         body.append(f"_prepare_{NAMES[a]}.c09_fn = {f!r}")
     if k["post"]:
-        body.append(f"def __post_init__(self): LOG.append(('post', {k['id']}))")
+        # the hook records what it can see: the attribute names set on the instance when it runs
+        body.append(f"def __post_init__(self): LOG.append(('post', {k['id']}, "
+                    "[n for n in self.__dict__ if not n.startswith('__spec_class')]))")
     if k["hinit"] is not None:
         h = k["hinit"]
         ps = ", ".join(f"{NAMES[a]}={val_py(v)}" for a, v in h["params"])
